@@ -848,3 +848,147 @@ pub mod vpipe {
         DuplexRun { result, end_ms, log }
     }
 }
+
+// ---------------------------------------------------------------------------------------
+// HTTP/1.1 codec over an in-memory transport (C08)
+
+pub mod vh1 {
+    use crate::http_codec::HttpCodec;
+    use crate::{http1_codec, net_utils, pipe};
+    use std::io;
+    use std::net::SocketAddr;
+    use std::pin::Pin;
+    use std::sync::Arc;
+    use std::task::{Context, Poll};
+    use tokio::io::{AsyncRead, AsyncWrite, AsyncWriteExt, ReadBuf};
+
+    struct Transport(tokio::io::DuplexStream);
+
+    impl net_utils::PeerAddr for Transport {
+        fn peer_addr(&self) -> io::Result<SocketAddr> {
+            Ok(SocketAddr::from(([198, 51, 100, 7], 50000)))
+        }
+    }
+
+    impl AsyncRead for Transport {
+        fn poll_read(mut self: Pin<&mut Self>, cx: &mut Context<'_>, buf: &mut ReadBuf<'_>) -> Poll<io::Result<()>> {
+            Pin::new(&mut self.0).poll_read(cx, buf)
+        }
+    }
+
+    impl AsyncWrite for Transport {
+        fn poll_write(mut self: Pin<&mut Self>, cx: &mut Context<'_>, data: &[u8]) -> Poll<io::Result<usize>> {
+            Pin::new(&mut self.0).poll_write(cx, data)
+        }
+        fn poll_flush(mut self: Pin<&mut Self>, cx: &mut Context<'_>) -> Poll<io::Result<()>> {
+            Pin::new(&mut self.0).poll_flush(cx)
+        }
+        fn poll_shutdown(mut self: Pin<&mut Self>, cx: &mut Context<'_>) -> Poll<io::Result<()>> {
+            Pin::new(&mut self.0).poll_shutdown(cx)
+        }
+    }
+
+    #[derive(Debug, Default, Clone)]
+    pub struct H1Obs {
+        /// `request` | `closed` | `error`
+        pub listen: String,
+        pub method: String,
+        pub uri: String,
+        /// lower-cased `name: value` lines in arrival order
+        pub headers: Vec<String>,
+        /// every payload byte delivered at the upload source until its end
+        pub upload: Vec<u8>,
+        /// how the upload side ended: `eof` | `error` | `open`
+        pub upload_end: String,
+        /// everything the codec wrote to the transport
+        pub transport_out: Vec<u8>,
+    }
+
+    /// Feed `chunks` (one transport write each, yielding in between; then EOF) to a fresh
+    /// `Http1Codec`, answer the first request with `200` (when `respond`) and `download`
+    /// bytes, and drain the upload side.
+    pub async fn session(settings: Arc<crate::settings::Settings>, chunks: Vec<Vec<u8>>, respond: bool, download: Vec<u8>) -> H1Obs {
+        let (client, server) = tokio::io::duplex(1 << 20);
+        let (mut cr, mut cw) = tokio::io::split(client);
+        let mut codec = http1_codec::Http1Codec::new(settings, Transport(server), crate::log_utils::IdChain::empty());
+        let writer = tokio::spawn(async move {
+            for c in chunks {
+                if cw.write_all(&c).await.is_err() {
+                    return;
+                }
+                // let the codec observe this segment on its own
+                for _ in 0..4 {
+                    tokio::task::yield_now().await;
+                }
+            }
+            let _ = cw.shutdown().await;
+        });
+        let reader = tokio::spawn(async move {
+            use tokio::io::AsyncReadExt;
+            let mut all = vec![];
+            let _ = cr.read_to_end(&mut all).await;
+            all
+        });
+        let mut obs = H1Obs::default();
+        match codec.listen().await {
+            Ok(None) => obs.listen = "closed".into(),
+            Err(_) => obs.listen = "error".into(),
+            Ok(Some(stream)) => {
+                obs.listen = "request".into();
+                {
+                    let r = stream.request().request();
+                    obs.method = r.method.to_string();
+                    obs.uri = r.uri.to_string();
+                    for (n, v) in r.headers.iter() {
+                        obs.headers.push(format!("{}: {}", n.as_str(), String::from_utf8_lossy(v.as_bytes())));
+                    }
+                }
+                let (req, resp) = stream.split();
+                let mut source = req.finalize();
+                let pump = tokio::spawn(async move {
+                    // keep the session going: the codec forwards the upload while `listen` runs
+                    let r = codec.listen().await;
+                    (codec, r.is_ok())
+                });
+                let mut sink: Option<Box<dyn pipe::Sink>> = None;
+                if respond {
+                    if let Ok(s) = resp.send_ok_response(false) {
+                        let mut s = s.into_pipe_sink();
+                        if !download.is_empty() {
+                            let _ = s.write_all(bytes::Bytes::from(download)).await;
+                        }
+                        sink = Some(s);
+                    }
+                } else {
+                    drop(resp);
+                }
+                loop {
+                    match source.read().await {
+                        Ok(pipe::Data::Chunk(b)) => obs.upload.extend_from_slice(&b),
+                        Ok(pipe::Data::Eof) => {
+                            obs.upload_end = "eof".into();
+                            break;
+                        }
+                        Err(_) => {
+                            obs.upload_end = "error".into();
+                            break;
+                        }
+                    }
+                }
+                if let Some(mut s) = sink {
+                    let _ = s.eof();
+                    let _ = s.flush().await;
+                }
+                drop(source);
+                let _ = pump.await;
+            }
+        }
+        let _ = writer.await;
+        obs.transport_out = tokio::time::timeout(std::time::Duration::from_secs(2), reader)
+            .await
+            .ok()
+            .and_then(|x| x.ok())
+            .unwrap_or_default();
+        obs
+    }
+}
